@@ -238,6 +238,9 @@ var vehPool = []map[string]any{
 	{"id": "V2", "label": "L2", "licensePlate": "P2"}, {"id": "V2", "label": "L2", "licensePlate": "P1"}, {"label": "only-label", "licensePlate": "Q"}, {"licensePlate": "LP-0"},
 }
 
+// descriptors whose fields are present but empty: they identify nothing, the vehicle is an id-less one
+var emptyVehDescs = []map[string]any{{"id": ""}, {"label": ""}, {"id": "", "label": "", "licensePlate": ""}, {"licensePlate": ""}}
+
 func (g *rtGen) vehiclePosition(r *Rng, base int64) map[string]any {
 	vp := map[string]any{}
 	if r.P(2, 3) {
@@ -520,6 +523,10 @@ func (g *rtGen) message(r *Rng, named bool) map[string]any {
 				if paired && v == -1 {
 					vp := g.vehiclePosition(r, base)
 					vp["trip"] = deepCopyJSON(t)
+					if r.P(1, 3) {
+						// a descriptor that is present but identifies nothing: still an id-less vehicle of its own
+						vp["vehicle"] = deepCopyJSON(emptyVehDescs[r.Intn(len(emptyVehDescs))])
+					}
 					add(map[string]any{"vehicle": vp})
 				}
 			}
@@ -537,6 +544,11 @@ func (g *rtGen) message(r *Rng, named bool) map[string]any {
 			if r.P(1, 4) {
 				add(map[string]any{"vehicle": g.vehiclePosition(r, base)}) // no descriptor, no trip
 			}
+			if r.P(1, 6) {
+				vp := g.vehiclePosition(r, base)
+				vp["vehicle"] = deepCopyJSON(emptyVehDescs[r.Intn(len(emptyVehDescs))])
+				add(map[string]any{"vehicle": vp})
+			}
 		} else {
 			n := r.Intn(7)
 			for i := 0; i < n; i++ {
@@ -549,8 +561,10 @@ func (g *rtGen) message(r *Rng, named bool) map[string]any {
 					if r.P(1, 2) {
 						if len(vehs) > 0 && r.P(3, 4) {
 							tu["vehicle"] = deepCopyJSON(vehs[r.Intn(len(vehs))])
-						} else {
+						} else if r.Bool() {
 							tu["vehicle"] = map[string]any{} // empty descriptor
+						} else {
+							tu["vehicle"] = deepCopyJSON(emptyVehDescs[r.Intn(len(emptyVehDescs))])
 						}
 					}
 					add(map[string]any{"tripUpdate": tu})
@@ -558,6 +572,8 @@ func (g *rtGen) message(r *Rng, named bool) map[string]any {
 					vp := g.vehiclePosition(r, base)
 					if len(vehs) > 0 && r.P(3, 4) {
 						vp["vehicle"] = deepCopyJSON(vehs[r.Intn(len(vehs))])
+					} else if r.P(1, 3) {
+						vp["vehicle"] = deepCopyJSON(emptyVehDescs[r.Intn(len(emptyVehDescs))])
 					}
 					if len(trips) > 0 && r.P(1, 2) {
 						vp["trip"] = deepCopyJSON(trips[r.Intn(len(trips))])
